@@ -291,7 +291,11 @@ class Run(Contract):
                ('C12:child-started-with-the-given-command', same(g.get('spawn.command'), v.old.command)),
                ('C12:child-started-in-the-given-directory', same(g.get('spawn.cwd'), v.old.cwd)),
                ('C12:child-started-with-the-given-environment', same(g.get('spawn.env'), v.old.env)),
-               ('C12:child-logs-to-the-given-file', same(g.get('spawn.logfile'), v.old.logfile))]
+               ('C12:child-logs-to-the-given-file', same(g.get('spawn.logfile'), v.old.logfile)),
+               # "up to the point it stops (EOF, timeout, ...)": the child waits with the timeout run() was given;
+               # -1 means the class default of 30 s
+               ('C12:child-waits-with-the-given-timeout',
+                eq(g.get('spawn.timeout'), ite(eq(v.old.timeout, -1), 30, v.old.timeout)))]
         if v.raised is not None:
             return out + [('C12:typeerror-only-for-an-unusable-response', True)]
         res = v.result
